@@ -182,7 +182,19 @@ fn viol(ctx: &Ctx, class: &str, msg: String) -> Violation {
     Violation::new(format!("{}/servermodel/{}", ctx.prop, class), msg)
 }
 
-const KEYS: [&str; 3] = ["key", "cam1", "str\u{e9}am"];
+/// Transaction ids are arbitrary AMF0 numbers chosen by the caller.
+fn draw_tx(ctx: &mut Ctx) -> f64 {
+    match ctx.ch.weighted("op.arg.txk", &[10, 1, 1, 1, 1, 1]) {
+        0 => ctx.ch.draw("op.arg.tx", 9) as f64,
+        1 => 2.5,
+        2 => -1.0,
+        3 => 4294967296.0,
+        4 => 1e300,
+        _ => f64::NAN,
+    }
+}
+
+const KEYS: [&str; 5] = ["key", "cam1", "str\u{e9}am", "", "kkkkkkkkkkkkkkkkkkkkkkkkkkkkkkkkkkkkkkkkkkkkkkkkkkkkkkkkkkkkkkkkkkkkkkkkkkkkkkkkkkkkkkkkkkkkkkkkkkkkkkkkkkkkkkkkkkkkkkkkkkkkkkkkkkkkkkkkkkkkkkkkkkkkkkkkkkkkkkkkkkkkkkkkkkkkkkkkkkkkkkkkkkkkkkkkkkkkkkkkkkkkkkkkkkkkkkkkkkkkkkkkkkkkkkkkkkkkkkkkkkkkkkkkkkkkkkkkkkkkkkkkkkkkkkkkkkkkkkkkkkkkkkkkkkkkkkkkkkkkkkkkkkkkkk"];
 const APPS: [&str; 4] = ["live", "app", "live/", "a/b"];
 
 impl World {
@@ -277,7 +289,11 @@ impl World {
             self.hostile_step(ctx);
             return;
         }
-        self.peer_ts = self.peer_ts.wrapping_add(ctx.ch.draw("ts.step", 40) as u32);
+        self.peer_ts = match ctx.ch.weighted("ts.kind", &[12, 1, 1]) {
+            0 => self.peer_ts.wrapping_add(ctx.ch.draw("ts.step", 40) as u32),
+            1 => self.peer_ts.wrapping_add(*ctx.ch.pick("ts.step", &[0xFF_FFFFu32, 0x100_0000, 0xFF_FFFE])),
+            _ => ctx.ch.draw("ts.step", 1 << 32) as u32,
+        };
         let ts = self.peer_ts;
         let connected = self.model.app.is_some();
         let w_connect = if connected { 1 } else { 14 };
@@ -319,14 +335,14 @@ impl World {
                 if ctx.ch.chance("op.arg.objenc", 1, 3) {
                     props.push(("objectEncoding".to_string(), AV::Num(*ctx.ch.pick("op.arg.objencv", &[0.0f64, 3.0]))));
                 }
-                (msg::command(0, ts, "connect", ctx.ch.draw("op.arg.tx", 5) as f64, AV::Obj(props), vec![]), 3)
+                (msg::command(0, ts, "connect", draw_tx(ctx), AV::Obj(props), vec![]), 3)
             }
-            2 => (msg::command(0, ts, "createStream", ctx.ch.draw("op.arg.tx", 9) as f64, AV::Null, vec![]), 3),
+            2 => (msg::command(0, ts, "createStream", draw_tx(ctx), AV::Null, vec![]), 3),
             3 => {
                 let sid = self.pick_sid(ctx);
                 let key = *ctx.ch.pick("op.arg.key", &KEYS);
                 let mode = *ctx.ch.pick("op.arg.mode", &["live", "record", "append", "LIVE"]);
-                (msg::command(sid, ts, "publish", ctx.ch.draw("op.arg.tx", 9) as f64, AV::Null, vec![AV::s(key), AV::s(mode)]), 8)
+                (msg::command(sid, ts, "publish", draw_tx(ctx), AV::Null, vec![AV::s(key), AV::s(mode)]), 8)
             }
             4 => {
                 let sid = self.pick_sid(ctx);
